@@ -10,7 +10,7 @@ import (
 func init() {
 	register(&Spec{
 		ID:          "C05",
-		Loads:       []LoadSpec{{Patterns: []string{"./lnwallet", "./contractcourt"}}},
+		Loads:       []LoadSpec{{Patterns: []string{"./lnwallet", "./contractcourt", "./input"}}},
 		Explanation: "Decides that a received commitment enters the local chain only after the commitment signature (ECDSA true-edge or musig2 ok-edge), every HTLC verification job and the aux verification succeeded; that the HTLC signatures are matched one-to-one to the non-dust HTLC outputs and stored for later use; that the resolutions built after a close use the same second-level arguments that were verified, skip exactly the HTLCs HtlcIsDust trims for the owner of the confirmed commitment and carry the CSV delay of their branch (to_self delay on the own commitment, second-level input sequence on the counterparty's); that every HTLC resolution set is derived from the fee rate, HTLC list and commitment point of the very commitment that confirmed; and that the broadcastable commitment pairs keys and signatures in the fixed order; that a local force close resolves the database's HTLCs only for the state number its keys were derived at; that a final-taproot channel is never given a CSV delay of zero; that signer and verifier hand the aux job the leaf the second-level transaction was built with; that every taproot script constructor call selects the script flavour by ChanType.IsTaprootFinal(); and that a lease expiry is selected before any script is derived from it.",
 		NotDecided: []string{
 			"script-interpreter verdicts for the signed commitment, second-level transactions and sweeps",
@@ -164,7 +164,8 @@ func runC05(r *an.Run) {
 						o.FailAt(ex.ID+"#"+callee+"-arg"+itoa(i), cs[0].Where(), "%s receives argument %d = %s, expected /%s/", callee, i, a[i], re)
 					}
 				}
-				selectorConsistent(o, ex, cs[0], cs[0].Node.(*ast.CallExpr).Args[7], canonTerm(`^\$p1$`), canonTerm(`^\$p5\.CsvDelay$|^uint32\(\$p5\.CsvDelay\)$`), canonTerm(`^\$p6\.CsvDelay$|^uint32\(\$p6\.CsvDelay\)$`), "csv delay")
+				csvVar, csvAt := c05r5SelectedVar(ex, cs[0].Node.(*ast.CallExpr).Args[7], cs[0])
+				selectorConsistent(o, ex, csvAt, csvVar, canonTerm(`^\$p1$`), canonTerm(`^\$p5\.CsvDelay$|^uint32\(\$p5\.CsvDelay\)$`), canonTerm(`^\$p6\.CsvDelay$|^uint32\(\$p6\.CsvDelay\)$`), "csv delay")
 				// outgoing resolutions for outgoing HTLCs only
 				inc := an.Truth(an.FieldPath(nil, "Incoming"), callee == "newIncomingHtlcResolution", "htlc.Incoming matches the resolution kind")
 				guarded(o, ex, cs[0], inc)
